@@ -203,6 +203,81 @@ def run_label_freshness(chk, src):
                                      f"operator silently changes the total charge / labels of the operand and of every copy of it")
 
 
+
+def adjoint_rule(chk, src):
+    """abstract run of Mpo.conj_trans and MatrixProduct.conj: every site of the result is the complex conjugate of the source site (with row and column axes exchanged
+    for the adjoint), labels and total charge negated for the adjoint"""
+    from ..syminterp import SymInterp, Sym, OpenSym
+
+    class Site(Sym):
+        def __init__(self, i, ops=()):
+            super().__init__(f"site{i}" + "".join("." + o for o in ops))
+            self.i, self.ops = i, tuple(ops)
+
+        def conj(self):
+            return Site(self.i, self.ops + ("conj",))
+
+        def copy(self):
+            return self
+
+    class Q(Sym):
+        def __init__(self, name, sign=1):
+            super().__init__(("-" if sign < 0 else "") + name)
+            self.base, self.sign = name, sign
+
+        def __neg__(self):
+            return Q(self.base, -self.sign)
+
+    def moveaxis(t, a, b):
+        return Site(t.i, t.ops + (f"move{tuple(a)}->{tuple(b)}",))
+    N = 3
+
+    class MPSym(Sym):
+        def __init__(self, name, sites):
+            super().__init__(name)
+            self.sites = dict(sites)
+            self.site_num = N
+            self.qn = [[Q(f"q{b}.{k}") for k in range(2)] for b in range(N + 1)]
+            self.qntot = Q("qntot")
+
+        def __getitem__(self, i):
+            return self.sites[i]
+
+        def __setitem__(self, i, v):
+            self.sites[i] = v
+
+        def __iter__(self):
+            return iter([self.sites[i] for i in range(N)])
+
+        def metacopy(self):
+            m = MPSym("meta(" + self._name + ")", {})
+            return m
+
+        def conj(self):
+            return MPSym("conj(" + self._name + ")", {i: s_.conj() for i, s_ in self.sites.items()})
+    ct = src.func(MPO, "Mpo.conj_trans")
+    me = MPSym("O", {i: Site(i) for i in range(N)})
+    it = SymInterp(src, None, {"moveaxis": moveaxis, "np": OpenSym("np", array=lambda x: x)})
+    out = it.call_function(ct, [me])
+    probs = []
+    for i in range(N):
+        s_ = out.sites.get(i) if isinstance(out, MPSym) else None
+        ops = sorted(getattr(s_, "ops", ("missing",)))
+        if getattr(s_, "i", None) != i or ops != ["conj", "move(1, 2)->(2, 1)"]:
+            probs.append(f"site {i}: {s_!r}")
+    okq = isinstance(out, MPSym) and all(getattr(x, "sign", 1) == -1 for row in out.qn for x in row) and getattr(out.qntot, "sign", 1) == -1
+    chk.ob("adjoint", "Mpo.conj_trans: site tensors conjugated with row / column exchanged", not probs and isinstance(out, MPSym) and out is not me, ct.where, probs or "every site = conj(swap rows/columns)",
+           "new[i] = conj(moveaxis(self[i], (1, 2), (2, 1)))", line=ct.node.lineno,
+           detail="the adjoint of an operator is the conjugate transpose: without the conjugation it is the plain transpose, which differs for every operator with complex entries (complex hopping, "
+                  "i * operator); real operators do not see the difference: " + (probs[0] if probs else ""))
+    chk.ob("adjoint", "Mpo.conj_trans: bond labels and total charge negated", okq, ct.where, {"qn": [repr(x) for x in out.qn[1]] if isinstance(out, MPSym) else None, "qntot": repr(getattr(out, "qntot", None))}, "all negated", line=ct.node.lineno)
+    cj = src.func(MP, "MatrixProduct.conj")
+    me2 = MPSym("A", {i: Site(i) for i in range(N)})
+    out2 = SymInterp(src, None, {}).call_function(cj, [me2])
+    ok2 = isinstance(out2, MPSym) and out2 is not me2 and all(getattr(out2.sites.get(i), "ops", None) == ("conj",) and out2.sites[i].i == i for i in range(N)) and all(s_.ops == () for s_ in me2.sites.values())
+    chk.ob("adjoint", "MatrixProduct.conj: every site conjugated, source untouched", ok2, cj.where, {i: repr(v) for i, v in getattr(out2, "sites", {}).items()}, "new[i] = self[i].conj()", line=cj.node.lineno)
+
+
 def run(chk):
     src = chk.src
     chk.explanation = (
@@ -218,6 +293,8 @@ def run(chk):
     run_align_and_charge(chk, src)
     run_merge_order(chk, src)
     run_label_freshness(chk, src)
+    chk.rule("adjoint", "complex conjugate / adjoint act site by site (abstract run)", 3)
+    adjoint_rule(chk, src)
     chk.rule("prefactor", "scalar prefactor kept separately from tensors is folded / conjugated / applied consistently", 8)
     for nm in ("Mps.add", "Mps.distance"):
         fi = src.func(MPS, nm)
